@@ -5,7 +5,7 @@ import struct
 from hypothesis import strategies as st
 
 from . import refmodel as rm
-from .fakesock import Budget, make_ws, split_at
+from .fakesock import Budget, Interrupt, make_ws, split_at
 
 # ---------------------------------------------------------------------------
 # frame specs: {"fin":1,"op":1,"p":bytes | {"rep":bytes,"n":int},"key":bytes|None,"rsv":0,"lf":None}
@@ -166,7 +166,7 @@ DRIVERS = ("frame", "data_frame", "data", "recv", "next", "iter")
 RECVS = ("recv", "next", "iter")  # the message-level routes: recv(), next(ws), `for message in ws`
 
 
-def drive(ws, fs, driver, cf=False, max_calls=400, stop_on_timeout=False, resume=False):
+def drive(ws, fs, driver, cf=False, max_calls=400, stop_on_timeout=False, resume=False, on_timeout=None):
     """Repeat one receive call until it raises something other than a timeout.
 
     events: ("ret", value, consumed, nwrites) | ("timeout", consumed) | ("raise", excname, consumed, nwrites)
@@ -204,9 +204,12 @@ def drive(ws, fs, driver, cf=False, max_calls=400, stop_on_timeout=False, resume
                     r = ws.recv()
                 val = ("R", type(r).__name__, r if isinstance(r, str) else _b(r))
             events.append(("ret", val, fs.consumed, len(fs.writes())))
-        except (websocket.WebSocketTimeoutException, BlockingIOError):
-            # (BlockingIOError: the transport is non-blocking, timeout 0, and had nothing to deliver yet)
+        except (websocket.WebSocketTimeoutException, BlockingIOError, Interrupt):
+            # (BlockingIOError: the transport is non-blocking, timeout 0, and had nothing to deliver yet;
+            #  Interrupt: a green-thread timeout / signal interrupted the blocked receive, the application retries)
             events.append(("timeout", fs.consumed, ws.connected == before, ws.sock is fs and not fs.closed))
+            if on_timeout is not None:
+                on_timeout()
             if stop_on_timeout:
                 break
         except Budget as e:
@@ -310,16 +313,69 @@ def client_writes(fs):
     return out, problems
 
 
-def run_stream(specs, cuts=(), driver="data_frame", cf=False, fire=False, skip=False, script_extra=None, resume=False, flags_as_int=False):
-    """Build ws over the segmented wire, drive it, return (events, ws, fs, frames, ends, wire)."""
+class Neighbour:
+    """A second live connection of the same process whose traffic is interleaved with the one under observation, fragment by
+    fragment: connections share nothing, so neither may notice the other. It receives a fixed cycle of messages (a text
+    message cut inside a code point, a binary message with an empty fragment, a ping, an unfragmented text), one receive
+    call each time the observed connection hands control back (its transport has nothing more for the moment)."""
+
+    def __init__(self, rounds=40):
+        # (the first message deliberately ends inside a code point of its *second* fragment's tail: completed by fragment 3)
+        msgs = [
+            ([(0, rm.TEXT, b"n\xc3"), (0, rm.CONT, b"\xa9ighbour \xe2\x82"), (1, rm.CONT, b"\xac")], "n\u00e9ighbour \u20ac"),
+            ([(0, rm.BINARY, b"\x00\x01"), (0, rm.CONT, b""), (1, rm.CONT, b"\x02")], b"\x00\x01\x02"),
+            ([(1, rm.PING, b"np"), (1, rm.TEXT, b"plain")], "plain"),
+        ]
+        script, self.want = [], []
+        for r in range(rounds):
+            frs, val = msgs[r % len(msgs)]
+            for fin, op, p in frs:
+                script.append(rm.encode_frame(fin, op, p))
+                script.append(("timeout", 0))
+            self.want.append(val)
+        self.ws, self.fs = make_ws(script, at_end="timeout")
+        self.got = []
+        self.problems = []
+
+    def step(self):
+        import websocket
+
+        try:
+            self.got.append(self.ws.recv())
+        except websocket.WebSocketTimeoutException:
+            pass
+        except Exception as e:  # noqa: BLE001 - reported through problems
+            self.problems.append(f"neighbour connection: {type(e).__name__}: {e}")
+
+    def check(self, obs, tag):
+        for p in self.problems[:1]:
+            obs.fail(f"{tag}|neighbour-connection-disturbed|raised", p)
+        if self.got != self.want[: len(self.got)]:
+            i = next(i for i, (g, w) in enumerate(zip(self.got, self.want)) if g != w)
+            obs.fail(f"{tag}|neighbour-connection-disturbed|wrong-message", f"message {i} of the neighbour connection: got {self.got[i]!r}, expected {self.want[i]!r}")
+        pongs = [f for f in rm.decode_frames(bytes(self.fs.sent))[0] if f.opcode == rm.PONG]
+        if any(f.payload != b"np" for f in pongs):
+            obs.fail(f"{tag}|neighbour-connection-disturbed|wrong-pong", f"{[f.payload for f in pongs][:3]}")
+
+
+def run_stream(specs, cuts=(), driver="data_frame", cf=False, fire=False, skip=False, script_extra=None, resume=False, flags_as_int=False, neighbour=None):
+    """Build ws over the segmented wire, drive it, return (events, ws, fs, frames, ends, wire).
+    With a Neighbour, the transport has "nothing more for the moment" after every frame and the neighbour connection
+    gets one receive call each time (interleaving of two connections at frame granularity)."""
     wire, frames, ends = wire_of(specs)
     script = split_at(wire, cuts) if script_extra is None else script_extra(wire)
+    if neighbour is not None:
+        script = []
+        for piece in split_at(wire, sorted(set(cuts) | {e for e in ends if 0 < e < len(wire)})):
+            script.append(piece)
+            script.append(("timeout", 0))
+        # (a timeout inside a frame, at a cut, is C03's subject; here it only adds interleaving points)
     if flags_as_int:
         # the same options given as 0 / 1 (a value read from a configuration) instead of False / True
         ws, fs = make_ws(script, fire_cont_frame=int(bool(fire)), skip_utf8_validation=int(bool(skip)))
     else:
         ws, fs = make_ws(script, fire_cont_frame=fire, skip_utf8_validation=skip)
-    events = drive(ws, fs, driver, cf, resume=resume)
+    events = drive(ws, fs, driver, cf, resume=resume, on_timeout=neighbour.step if neighbour is not None else None, max_calls=400 + 2 * len(script))
     return events, ws, fs, frames, ends, wire
 
 
